@@ -26,6 +26,9 @@ class Prop(Check):
     THEOREMS = [
         "LinkLoc.C34_refs_sorted_exact", "LinkLoc.C34_refs_pinned_false", "PosDict.C34_dict_keys",
         "PosDict.C34_dict_innermost", "PosDict.C34_dict_order", "PosDict.C34_dict_pinned_false",
+        "PosDict.C34_wf_geo", "PosDict.C34_geo_spec", "PosDict.C34_dict_innermost_geo", "PosDict.C34_geo_of_build",
+        "PosDict.C34_dict_innermost_built", "LinkLoc.C34_refs_total",
+        "PosDict.C34_innermost_unique",
     ]
     DRIVER = "Drivers/Positions.lean"
     QUICK_CASES = 420
@@ -40,8 +43,11 @@ class Prop(Check):
                 "tools: lists from texts / reference spans / schedules, maps from the observed object trees; not "
                 "exhibited: the parser (spans of objects and reference nodes are inputs)")
     ASSUMPTIONS = [
-        "object spans form a parse geometry (children inside the parent, in text order, non-empty) - used only for the "
-        "'every object with that span contains the chosen one' clause of C34_dict_innermost",
+        "object spans form a parse geometry - used only for the 'every object with that span contains the chosen one' "
+        "clause: C34_dict_innermost wants `wf` (children inside the parent, in text order, non-empty), "
+        "C34_dict_innermost_geo only the order-free `geo`, which C34_geo_of_build derives for every model built by "
+        "Obj.build from a well-formed parse tree (C06's PT.WF, checked there on every real parse tree); here "
+        "`PosDict.geo` is evaluated on every observed object tree (compare)",
         "references resolved through metamodel.builtins have no definition span and are not listed (not generated)",
     ]
 
@@ -139,6 +145,10 @@ class Prop(Check):
                 return f"{L.fname(fi)}: _pos_crossref_list (ref id, start, end, def file, def start, def end) = {got}, model {out['ok'][k]}"
             if f["dict"] != out["dicts"][k]:
                 return f"{L.fname(fi)}: _pos_rule_dict items (start, end, object) = {f['dict']}, model {out['dicts'][k]}"
+            # the hypothesis of C34_dict_innermost_geo, evaluated by the model on the observed object tree
+            if "geo" not in out or out["geo"][k] is not True:
+                return (f"{L.fname(fi)}: the observed object tree does not have the parse geometry PosDict.geo "
+                        f"(non-empty spans, children inside their parent, children pairwise disjoint)")
         return None
 
     # --------------------------------------------------------------- oracle
